@@ -25,6 +25,15 @@ or a power of two, rounding direction, fused vs separate operations, summation o
 the smallest positive value, 1 - epsilon; ratios whose numerator or denominator is 0 or near the type's maximum; sizes and
 counts 0, 1, 2 and around 2^8 / 2^16 / 2^32; off-by-one at inclusive / exclusive range ends; remainder and division of
 negative numbers; comparison operators that differ only on equality. The change must still look like ordinary code.""",
+ "errors": """
+ANGLE FOR THIS ROUND: make the breakage live on the FAILURE side. Candidates: which error is reported when two error
+conditions hold at once (precedence), the payload of an error (counts, indices, positions, names, the state or value carried
+along), an error that should be recoverable reported as fatal or the other way round, an error swallowed and replaced by a
+default value or by success, a success reported as an error at an exact boundary, error conversion and wrapping layers
+(`From` / `Into` / `map_err` / `source()` chains, which nesting level or position an error is attributed to), partial
+effects left behind by an operation that then fails, clean-up that runs only on one of the two paths, early returns placed
+before or after a side effect (a draw from the random generator, a push, a counter), and the behaviour for empty inputs.
+The success path for ordinary inputs must stay right.""",
  "state": """
 ANGLE FOR THIS ROUND: earlier rounds concentrated on single calls with unusual inputs. This time make the breakage depend
 on HISTORY: a value that is used more than once (the second call differs from the first), state that leaks from one
